@@ -1,0 +1,294 @@
+//go:build verif
+
+package types
+
+// Contracts for the deductive checker in /verif (comment-only; compiled only with -tags verif).
+// C18 / C03, message part: validation, building and conversion of MsgEthereumTx.
+// Lib specs: /verif/specs/c18m/80_msg.spec; loaded together with zz_contracts_c18_verif.go (tag c18).
+
+/*@
+alias SInt cosmossdk.io/math.Int
+
+// chain id of a legacy transaction: derived from the stored signature value v (DeriveChainID is proved in C18-fields)
+func (*LegacyTx).GetChainID
+    inline
+
+// ------------------------------------------------------------------ static fee = price (fee cap) x gas limit
+// precondition: the price is present (Validate rejects a nil price before it calls Fee)
+func (LegacyTx).Fee
+    requires price: tx.GasPrice != nil
+    ensures value: result != nil && fresh(result) && *result == *tx.GasPrice * tx.GasLimit
+func (AccessListTx).Fee
+    requires price: tx.GasPrice != nil
+    ensures value: result != nil && fresh(result) && *result == *tx.GasPrice * tx.GasLimit
+func (DynamicFeeTx).Fee
+    requires price: tx.GasFeeCap != nil
+    ensures value: result != nil && fresh(result) && *result == *tx.GasFeeCap * tx.GasLimit
+
+// ------------------------------------------------------------------ stateless validation of the three tx data types
+// optional amount: absent, or non-negative and within 256 bits
+specfunc AmountOK(p *cosmossdk.io/math.Int) bool = p == nil || (0 <= *p && fits256(*p))
+// recipient: empty (contract creation) or a valid hex address
+specfunc ToOK(to string) bool = to == "" || is_hex_addr(to)
+// a legacy signature value v from which a chain id can be derived (EIP-155: 27, 28 or >= 35)
+specfunc LegacyVOK(v Bytes) bool = len(v) > 0 && (be_int(v) == 27 || be_int(v) == 28 || be_int(v) >= 35)
+
+specfunc LegacyValid(tx github.com/haqq-network/haqq/x/evm/types.LegacyTx) bool =
+        tx.GasPrice != nil && 0 <= *tx.GasPrice && fits256(*tx.GasPrice) && fits256(*tx.GasPrice * tx.GasLimit)
+        && AmountOK(tx.Amount) && ToOK(tx.To) && LegacyVOK(tx.V)
+specfunc AccessListValid(tx github.com/haqq-network/haqq/x/evm/types.AccessListTx) bool =
+        tx.GasPrice != nil && 0 <= *tx.GasPrice && fits256(*tx.GasPrice) && fits256(*tx.GasPrice * tx.GasLimit)
+        && AmountOK(tx.Amount) && ToOK(tx.To) && tx.ChainID != nil
+specfunc DynamicFeeValid(tx github.com/haqq-network/haqq/x/evm/types.DynamicFeeTx) bool =
+        tx.GasTipCap != nil && tx.GasFeeCap != nil && 0 <= *tx.GasTipCap && 0 <= *tx.GasFeeCap
+        && fits256(*tx.GasTipCap) && fits256(*tx.GasFeeCap) && *tx.GasTipCap <= *tx.GasFeeCap
+        && fits256(*tx.GasFeeCap * tx.GasLimit)
+        && AmountOK(tx.Amount) && ToOK(tx.To) && tx.ChainID != nil
+
+// nil exactly when: gas price present, non-negative, within 256 bits; fee within 256 bits; amount absent or non-negative and
+// within 256 bits; recipient empty or a valid hex address; a chain id can be derived from the signature value v
+func (LegacyTx).Validate
+    ensures iff: (result == nil) == LegacyValid(tx)
+// same, with the chain id field present instead of the derived one
+func (AccessListTx).Validate
+    ensures iff: (result == nil) == AccessListValid(tx)
+// nil exactly when: tip cap and fee cap present, non-negative, within 256 bits, fee cap >= tip cap; fee (cap x gas) within
+// 256 bits; amount / recipient / chain id as above
+func (DynamicFeeTx).Validate
+    ensures iff: (result == nil) == DynamicFeeValid(tx)
+@*/
+
+/*@
+// ------------------------------------------------------------------ the packed tx data of a message
+alias TxData github.com/haqq-network/haqq/x/evm/types.TxData
+// the Any carries a tx data value / the tx data it carries (any_cached: /verif/specs/c18m_any/78_any.spec)
+specfunc unpack_ok(a *Any) bool = a != nil && implements(any_cached(a), "github.com/haqq-network/haqq/x/evm/types.TxData")
+specfunc unpack_td(a *Any) TxData = any_cached(a)
+// one of the three registered tx data types (a pointer to a tx data object, never a typed nil pointer)
+specfunc IsLegacy(td TxData) bool = td != nil && typeof(td) == typetag("*github.com/haqq-network/haqq/x/evm/types.LegacyTx")
+        && unbox(td, "*github.com/haqq-network/haqq/x/evm/types.LegacyTx") != nil
+specfunc IsAccessList(td TxData) bool = td != nil && typeof(td) == typetag("*github.com/haqq-network/haqq/x/evm/types.AccessListTx")
+        && unbox(td, "*github.com/haqq-network/haqq/x/evm/types.AccessListTx") != nil
+specfunc IsDynamicFee(td TxData) bool = td != nil && typeof(td) == typetag("*github.com/haqq-network/haqq/x/evm/types.DynamicFeeTx")
+        && unbox(td, "*github.com/haqq-network/haqq/x/evm/types.DynamicFeeTx") != nil
+specfunc KnownKind(td TxData) bool = IsLegacy(td) || IsAccessList(td) || IsDynamicFee(td)
+specfunc AsLegacy(td TxData) *github.com/haqq-network/haqq/x/evm/types.LegacyTx = unbox(td, "*github.com/haqq-network/haqq/x/evm/types.LegacyTx")
+specfunc AsAccessList(td TxData) *github.com/haqq-network/haqq/x/evm/types.AccessListTx = unbox(td, "*github.com/haqq-network/haqq/x/evm/types.AccessListTx")
+specfunc AsDynamicFee(td TxData) *github.com/haqq-network/haqq/x/evm/types.DynamicFeeTx = unbox(td, "*github.com/haqq-network/haqq/x/evm/types.DynamicFeeTx")
+
+// UnpackTxData: succeeds exactly for a non-nil Any whose cached value is a tx data value, and returns that value
+func UnpackTxData
+    ensures ok: (result.1 == nil) == unpack_ok(any)
+    ensures value: result.1 == nil ==> result.0 == unpack_td(any) && result.0 != nil
+    ensures failed: result.1 != nil ==> result.0 == nil
+
+// calls through the TxData interface are the case split over the three implementations (each proved in this configuration)
+func (TxData).AsEthereumData
+    dispatch (*LegacyTx).AsEthereumData, (*AccessListTx).AsEthereumData, (*DynamicFeeTx).AsEthereumData
+extend func (*AccessListTx).AsEthereumData
+    ensures accesses_len: len(d.AccessList) == len(tx.Accesses)
+extend func (*DynamicFeeTx).AsEthereumData
+    ensures accesses_len: len(d.AccessList) == len(tx.Accesses)
+
+// ------------------------------------------------------------------ stored tx data -> Ethereum transaction (field by field)
+// signature component x of the Ethereum transaction is the stored big-endian byte string b (empty: 0)
+specfunc SigIs(x *math/big.Int, b Bytes) bool = (len(b) == 0 ==> BigIs(x, 0)) && (len(b) > 0 ==> BigIs(x, be_int(b)))
+specfunc optS(p *cosmossdk.io/math.Int) int = ite(p == nil, 0, *p)
+specfunc ToParsed(a *Address, s string) bool = (s == "" ==> a == nil) && (s != "" ==> a != nil && *a == hex_addr(s))
+specfunc AlParsed(al AccessListE, acc github.com/haqq-network/haqq/x/evm/types.AccessList) bool = len(al) == len(acc)
+        && (forall k int :: 0 <= k && k < len(acc) ==> TupleParsed(al[k], acc[k]))
+// the Ethereum transaction t carries exactly the stored fields of p (absent amounts count as 0, absent signature values as 0)
+specfunc EthOfLegacy(t *EthTx, p *github.com/haqq-network/haqq/x/evm/types.LegacyTx) bool = t != nil && tx_type(t) == 0
+        && tx_nonce(t) == p.Nonce && tx_gas(t) == p.GasLimit && tx_data(t) == p.Data && ToParsed(tx_to(t), p.To)
+        && BigIs(tx_value(t), optS(p.Amount)) && BigIs(tx_gasprice(t), optS(p.GasPrice))
+        && BigIs(tx_feecap(t), optS(p.GasPrice)) && BigIs(tx_tipcap(t), optS(p.GasPrice)) && len(tx_al(t)) == 0
+        && SigIs(tx_v(t), p.V) && SigIs(tx_r(t), p.R) && SigIs(tx_s(t), p.S)
+specfunc EthOfAccessList(t *EthTx, p *github.com/haqq-network/haqq/x/evm/types.AccessListTx) bool = t != nil && tx_type(t) == 1
+        && tx_nonce(t) == p.Nonce && tx_gas(t) == p.GasLimit && tx_data(t) == p.Data && ToParsed(tx_to(t), p.To)
+        && BigIs(tx_value(t), optS(p.Amount)) && BigIs(tx_gasprice(t), optS(p.GasPrice))
+        && BigIs(tx_feecap(t), optS(p.GasPrice)) && BigIs(tx_tipcap(t), optS(p.GasPrice)) && AlParsed(tx_al(t), p.Accesses)
+        && BigIs(tx_chainid(t), optS(p.ChainID))
+        && SigIs(tx_v(t), p.V) && SigIs(tx_r(t), p.R) && SigIs(tx_s(t), p.S)
+specfunc EthOfDynamicFee(t *EthTx, p *github.com/haqq-network/haqq/x/evm/types.DynamicFeeTx) bool = t != nil && tx_type(t) == 2
+        && tx_nonce(t) == p.Nonce && tx_gas(t) == p.GasLimit && tx_data(t) == p.Data && ToParsed(tx_to(t), p.To)
+        && BigIs(tx_value(t), optS(p.Amount)) && BigIs(tx_gasprice(t), optS(p.GasFeeCap))
+        && BigIs(tx_feecap(t), optS(p.GasFeeCap)) && BigIs(tx_tipcap(t), optS(p.GasTipCap)) && AlParsed(tx_al(t), p.Accesses)
+        && BigIs(tx_chainid(t), optS(p.ChainID))
+        && SigIs(tx_v(t), p.V) && SigIs(tx_r(t), p.R) && SigIs(tx_s(t), p.S)
+specfunc EthOfData(t *EthTx, td TxData) bool = (IsLegacy(td) ==> EthOfLegacy(t, AsLegacy(td)))
+        && (IsAccessList(td) ==> EthOfAccessList(t, AsAccessList(td))) && (IsDynamicFee(td) ==> EthOfDynamicFee(t, AsDynamicFee(td)))
+
+// AsTransaction: a new Ethereum transaction that carries exactly the stored fields (nil if the data cannot be unpacked).
+// kinds: the codec registers exactly the three tx data types (RegisterInterfaces)
+func (MsgEthereumTx).AsTransaction
+    requires kinds: unpack_ok(msg.Data) ==> KnownKind(unpack_td(msg.Data))
+    ensures bad: !unpack_ok(msg.Data) ==> result == nil
+    ensures made: unpack_ok(msg.Data) ==> result != nil && fresh(result)
+    // the objects its accessors hand out exist (a later allocation is a different object)
+    ensures allocated: unpack_ok(msg.Data) ==> tx_value(result) < $alloc && tx_gasprice(result) < $alloc && tx_feecap(result) < $alloc
+            && tx_tipcap(result) < $alloc && tx_chainid(result) < $alloc && tx_v(result) < $alloc && tx_r(result) < $alloc
+            && tx_s(result) < $alloc && tx_to(result) < $alloc
+    ensures legacy: unpack_ok(msg.Data) && IsLegacy(unpack_td(msg.Data)) ==> EthOfLegacy(result, AsLegacy(unpack_td(msg.Data)))
+    ensures accesslist: unpack_ok(msg.Data) && IsAccessList(unpack_td(msg.Data)) ==> EthOfAccessList(result, AsAccessList(unpack_td(msg.Data)))
+    ensures dynamicfee: unpack_ok(msg.Data) && IsDynamicFee(unpack_td(msg.Data)) ==> EthOfDynamicFee(result, AsDynamicFee(unpack_td(msg.Data)))
+
+// ------------------------------------------------------------------ AsMessage: what the EVM executes
+// effectiveGasPrice = min(tipCap + baseFee, feeCap); the result is a new object or feeCap itself (same contract as in C07)
+func EffectiveGasPrice
+    requires nonnil: baseFee != nil && feeCap != nil && tipCap != nil
+    ensures value: result != nil && *result == imin(*tipCap + *baseFee, *feeCap)
+    ensures alias: fresh(result) || result == feeCap
+
+// the message carries exactly the stored nonce, gas limit, to, value, data, access list, fee cap and tip cap of tx data p
+specfunc MsgOfLegacy(m github.com/ethereum/go-ethereum/core/types.Message, p *github.com/haqq-network/haqq/x/evm/types.LegacyTx, haveBase bool, base int) bool =
+        m.nonce == p.Nonce && m.gasLimit == p.GasLimit && m.data == p.Data && ToParsed(m.to, p.To) && m.isFake == false
+        && BigIs(m.amount, optS(p.Amount)) && len(m.accessList) == 0
+        && BigIs(m.gasFeeCap, optS(p.GasPrice)) && BigIs(m.gasTipCap, optS(p.GasPrice))
+        && BigIs(m.gasPrice, ite(haveBase, imin(optS(p.GasPrice) + base, optS(p.GasPrice)), optS(p.GasPrice)))
+specfunc MsgOfAccessList(m github.com/ethereum/go-ethereum/core/types.Message, p *github.com/haqq-network/haqq/x/evm/types.AccessListTx, haveBase bool, base int) bool =
+        m.nonce == p.Nonce && m.gasLimit == p.GasLimit && m.data == p.Data && ToParsed(m.to, p.To) && m.isFake == false
+        && BigIs(m.amount, optS(p.Amount)) && AlParsed(m.accessList, p.Accesses)
+        && BigIs(m.gasFeeCap, optS(p.GasPrice)) && BigIs(m.gasTipCap, optS(p.GasPrice))
+        && BigIs(m.gasPrice, ite(haveBase, imin(optS(p.GasPrice) + base, optS(p.GasPrice)), optS(p.GasPrice)))
+specfunc MsgOfDynamicFee(m github.com/ethereum/go-ethereum/core/types.Message, p *github.com/haqq-network/haqq/x/evm/types.DynamicFeeTx, haveBase bool, base int) bool =
+        m.nonce == p.Nonce && m.gasLimit == p.GasLimit && m.data == p.Data && ToParsed(m.to, p.To) && m.isFake == false
+        && BigIs(m.amount, optS(p.Amount)) && AlParsed(m.accessList, p.Accesses)
+        && BigIs(m.gasFeeCap, optS(p.GasFeeCap)) && BigIs(m.gasTipCap, optS(p.GasTipCap))
+        && BigIs(m.gasPrice, ite(haveBase, imin(optS(p.GasTipCap) + base, optS(p.GasFeeCap)), optS(p.GasFeeCap)))
+
+// precondition wf: the message was decoded (its data unpacks) - ValidateBasic / the ante handler run first
+func (MsgEthereumTx).AsMessage
+    requires wf: unpack_ok(msg.Data) && KnownKind(unpack_td(msg.Data))
+    let td = unpack_td(msg.Data)
+    let m = unbox(result.0, "github.com/ethereum/go-ethereum/core/types.Message")
+    let hb = baseFee != nil
+    let b = ite(baseFee != nil, *baseFee, 0)
+    ensures kind: result.0 != nil && typeof(result.0) == typetag("github.com/ethereum/go-ethereum/core/types.Message")
+    ensures legacy: IsLegacy(td) ==> MsgOfLegacy(m, AsLegacy(td), hb, b)
+    ensures accesslist: IsAccessList(td) ==> MsgOfAccessList(m, AsAccessList(td), hb, b)
+    ensures dynamicfee: IsDynamicFee(td) ==> MsgOfDynamicFee(m, AsDynamicFee(td), hb, b)
+    // the sender is the one the given signer recovers from an Ethereum transaction with exactly the stored fields
+    ensures sender: exists t *EthTx :: EthOfData(t, td) && (result.1 == nil) == sender_ok(signer, t)
+            && (result.1 == nil ==> m.from == sender_of(signer, t))
+@*/
+
+/*@
+// ------------------------------------------------------------------ ValidateBasic
+func (TxData).GetGas
+    dispatch (*LegacyTx).GetGas, (*AccessListTx).GetGas, (*DynamicFeeTx).GetGas
+func (TxData).GetGasPrice
+    dispatch (*LegacyTx).GetGasPrice, (*AccessListTx).GetGasPrice, (*DynamicFeeTx).GetGasPrice
+func (TxData).GetGasTipCap
+    dispatch (*LegacyTx).GetGasTipCap, (*AccessListTx).GetGasTipCap, (*DynamicFeeTx).GetGasTipCap
+func (*LegacyTx).GetGasTipCap
+    inline
+func (*AccessListTx).GetGasTipCap
+    inline
+func (*DynamicFeeTx).GetGasPrice
+    inline
+// Validate / Fee are declared on the struct types and reached through the pointer held by the interface
+func (TxData).Validate
+    dispatch (*LegacyTx).Validate, (*AccessListTx).Validate, (*DynamicFeeTx).Validate
+func (TxData).Fee
+    dispatch (*LegacyTx).Fee, (*AccessListTx).Fee, (*DynamicFeeTx).Fee
+
+// gas limit / validity / price (fee cap) of a tx data value of one of the three kinds
+specfunc GasOf(td TxData) int = ite(IsLegacy(td), AsLegacy(td).GasLimit, ite(IsAccessList(td), AsAccessList(td).GasLimit, AsDynamicFee(td).GasLimit))
+specfunc DataValid(td TxData) bool = (IsLegacy(td) && LegacyValid(*AsLegacy(td))) || (IsAccessList(td) && AccessListValid(*AsAccessList(td)))
+        || (IsDynamicFee(td) && DynamicFeeValid(*AsDynamicFee(td)))
+
+// nil exactly when: From is empty or a valid hex address; the deprecated Size_ field is 0; the data unpacks; the gas limit is
+// neither 0 nor above MaxInt64; the tx data is valid (see LegacyValid / AccessListValid / DynamicFeeValid); and the Hash field is
+// the hex form of the hash of the Ethereum transaction that carries exactly the stored fields.
+func (MsgEthereumTx).ValidateBasic
+    requires kinds: unpack_ok(msg.Data) ==> KnownKind(unpack_td(msg.Data))
+    let td = unpack_td(msg.Data)
+    let pre = (msg.From == "" || is_hex_addr(msg.From)) && msg.Size_ == floatlit("0") && unpack_ok(msg.Data)
+            && GasOf(td) != 0 && GasOf(td) <= 9223372036854775807 && DataValid(td)
+    ensures conditions: result == nil ==> pre
+    ensures hash: result == nil ==> exists t *EthTx :: EthOfData(t, td) && msg.Hash == hash_hex(tx_hash(t))
+    // (every Ethereum transaction with these fields has the same hash; stated without assuming it)
+    ensures complete: pre && (forall t *EthTx :: EthOfData(t, td) ==> msg.Hash == hash_hex(tx_hash(t))) ==> result == nil
+@*/
+
+/*@
+// ------------------------------------------------------------------ Copy: a new tx data object with the same field values that shares no
+// mutable object with the original (deep copy: writing through a pointer field of the copy cannot change the original).
+// Byte strings and the access list are slice VALUES in the checker's model (backing arrays are not modelled): for them only
+// equality of the contents is stated; sharing of a backing array (Accesses is copied by reference in the code) is not visible.
+// Observation (not a clause): the optional *sdkmath.Int fields and the access list of the copy are SHARED with the original (a shallow
+// copy, unlike go-ethereum's TxData.copy()). The property (C18) does not speak about Copy and no production code calls it, so no
+// obligation demands a deep copy; see DESIGN.md §12.3.
+func (*LegacyTx).Copy
+    requires nonnil: tx != nil
+    // the objects the receiver points to exist (a new allocation is a different object)
+    requires allocated: tx.Amount < $alloc && tx.GasPrice < $alloc
+    let c = unbox(result, "*github.com/haqq-network/haqq/x/evm/types.LegacyTx")
+    ensures kind: result != nil && typeof(result) == typetag("*github.com/haqq-network/haqq/x/evm/types.LegacyTx") && c != nil && fresh(c)
+    ensures values: c.Nonce == tx.Nonce && c.GasLimit == tx.GasLimit && c.To == tx.To && c.Data == tx.Data
+            && c.V == tx.V && c.R == tx.R && c.S == tx.S
+    ensures same_amount: (tx.Amount == nil ==> c.Amount == nil) && (tx.Amount != nil ==> c.Amount != nil && *c.Amount == *tx.Amount)
+    ensures same_gasprice: (tx.GasPrice == nil ==> c.GasPrice == nil) && (tx.GasPrice != nil ==> c.GasPrice != nil && *c.GasPrice == *tx.GasPrice)
+    ensures unchanged: *tx == old(*tx)
+func (*AccessListTx).Copy
+    requires nonnil: tx != nil
+    // the objects the receiver points to exist (a new allocation is a different object)
+    requires allocated: tx.ChainID < $alloc && tx.Amount < $alloc && tx.GasPrice < $alloc
+    let c = unbox(result, "*github.com/haqq-network/haqq/x/evm/types.AccessListTx")
+    ensures kind: result != nil && typeof(result) == typetag("*github.com/haqq-network/haqq/x/evm/types.AccessListTx") && c != nil && fresh(c)
+    ensures values: c.Nonce == tx.Nonce && c.GasLimit == tx.GasLimit && c.To == tx.To && c.Data == tx.Data
+            && c.V == tx.V && c.R == tx.R && c.S == tx.S && c.Accesses == tx.Accesses
+    ensures same_chainid: (tx.ChainID == nil ==> c.ChainID == nil) && (tx.ChainID != nil ==> c.ChainID != nil && *c.ChainID == *tx.ChainID)
+    ensures same_amount: (tx.Amount == nil ==> c.Amount == nil) && (tx.Amount != nil ==> c.Amount != nil && *c.Amount == *tx.Amount)
+    ensures same_gasprice: (tx.GasPrice == nil ==> c.GasPrice == nil) && (tx.GasPrice != nil ==> c.GasPrice != nil && *c.GasPrice == *tx.GasPrice)
+    ensures unchanged: *tx == old(*tx)
+func (*DynamicFeeTx).Copy
+    requires nonnil: tx != nil
+    // the objects the receiver points to exist (a new allocation is a different object)
+    requires allocated: tx.ChainID < $alloc && tx.Amount < $alloc && tx.GasTipCap < $alloc && tx.GasFeeCap < $alloc
+    let c = unbox(result, "*github.com/haqq-network/haqq/x/evm/types.DynamicFeeTx")
+    ensures kind: result != nil && typeof(result) == typetag("*github.com/haqq-network/haqq/x/evm/types.DynamicFeeTx") && c != nil && fresh(c)
+    ensures values: c.Nonce == tx.Nonce && c.GasLimit == tx.GasLimit && c.To == tx.To && c.Data == tx.Data
+            && c.V == tx.V && c.R == tx.R && c.S == tx.S && c.Accesses == tx.Accesses
+    ensures same_chainid: (tx.ChainID == nil ==> c.ChainID == nil) && (tx.ChainID != nil ==> c.ChainID != nil && *c.ChainID == *tx.ChainID)
+    ensures same_amount: (tx.Amount == nil ==> c.Amount == nil) && (tx.Amount != nil ==> c.Amount != nil && *c.Amount == *tx.Amount)
+    ensures same_gastipcap: (tx.GasTipCap == nil ==> c.GasTipCap == nil) && (tx.GasTipCap != nil ==> c.GasTipCap != nil && *c.GasTipCap == *tx.GasTipCap)
+    ensures same_gasfeecap: (tx.GasFeeCap == nil ==> c.GasFeeCap == nil) && (tx.GasFeeCap != nil ==> c.GasFeeCap != nil && *c.GasFeeCap == *tx.GasFeeCap)
+    ensures unchanged: *tx == old(*tx)
+@*/
+
+/*@
+// ------------------------------------------------------------------ BuildTx: the Cosmos transaction around the message
+alias MsgEthTx github.com/haqq-network/haqq/x/evm/types.MsgEthereumTx
+alias ExtOptEth github.com/haqq-network/haqq/x/evm/types.ExtensionOptionsEthereumTx
+// price (fee cap) of a tx data value / static fee = price x gas limit
+specfunc PriceP(td TxData) *cosmossdk.io/math.Int = ite(IsLegacy(td), AsLegacy(td).GasPrice, ite(IsAccessList(td), AsAccessList(td).GasPrice, AsDynamicFee(td).GasFeeCap))
+specfunc FeeOf(td TxData) int = *PriceP(td) * GasOf(td)
+
+func (MsgEthereumTx).GetGas
+    requires kinds: unpack_ok(msg.Data) ==> KnownKind(unpack_td(msg.Data))
+    ensures value: result == ite(unpack_ok(msg.Data), GasOf(unpack_td(msg.Data)), 0)
+
+// The transaction built around the message carries exactly this message (and no other), exactly one extension option, the
+// ExtensionOptionsEthereumTx marker, fee = Fee() of the tx data in the EVM denomination (no coin at all for a zero fee), gas
+// limit = gas limit of the tx data; everything else (memo, signatures, fee payer / granter, timeout) is whatever the builder
+// held before - BuildTx adds none. From is cleared. Builder model: /verif/specs/c18m/81_builder.spec.
+// priced: Fee() needs the price (gas price / fee cap) to be present - established by ValidateBasic
+func (*MsgEthereumTx).BuildTx
+    requires nonnil: msg != nil
+    requires kinds: unpack_ok(msg.Data) ==> KnownKind(unpack_td(msg.Data))
+    requires priced: unpack_ok(msg.Data) ==> PriceP(unpack_td(msg.Data)) != nil
+    modifies *msg, tb_msgs, tb_fee, tb_gas, tb_ext
+    let td = unpack_td(msg.Data)
+    let tx = result.0
+    ensures failed: result.1 != nil ==> result.0 == nil
+    ensures ok: result.1 == nil ==> unpack_ok(msg.Data) && implements(b, "github.com/cosmos/cosmos-sdk/x/auth/tx.ExtensionOptionsTxBuilder")
+    ensures msgs: result.1 == nil ==> len(stx_msgs(tx)) == 1 && isdyn(stx_msgs(tx)[0], *MsgEthTx) && dyn(stx_msgs(tx)[0], *MsgEthTx) == msg
+    ensures option: result.1 == nil ==> len(stx_ext(tx)) == 1 && stx_ext(tx)[0] != nil
+            && isdyn(any_cached(stx_ext(tx)[0]), *ExtOptEth)
+    ensures fee: result.1 == nil ==> stx_fee(tx) == ite(FeeOf(td) > 0, cone(evmDenom, FeeOf(td)), coins_zero())
+    ensures gas: result.1 == nil ==> stx_gas(tx) == GasOf(td)
+    ensures rest: result.1 == nil ==> stx_rest(tx) == old(tb_rest)
+    ensures from: result.1 == nil ==> msg.From == ""
+    ensures frame: msg.Data == old(msg.Data) && msg.Hash == old(msg.Hash) && msg.Size_ == old(msg.Size_)
+@*/
